@@ -393,12 +393,61 @@ func init() {
 	}
 
 	// ----- sync -----
-	for _, n := range []string{"(*sync.Mutex).Lock", "(*sync.Mutex).Unlock", "(*sync.RWMutex).Lock", "(*sync.RWMutex).Unlock",
-		"(*sync.RWMutex).RLock", "(*sync.RWMutex).RUnlock", "(*sync.WaitGroup).Add", "(*sync.WaitGroup).Done", "(*sync.WaitGroup).Wait",
-		"(*internal/sync.Mutex).Lock", "(*internal/sync.Mutex).Unlock"} {
-		reg(n, noop)
+	lk := func(f func(e *Engine, p *value)) intrinsicFn {
+		return func(e *Engine, caller *frame, fn *ssa.Function, args []value) value {
+			p, ok := args[0].(Ptr)
+			if !ok || p.p == nil {
+				panic(targetPanic{v: e.rtErr("invalid memory address or nil pointer dereference"), rt: true, msg: "lock operation on nil mutex"})
+			}
+			f(e, p.p)
+			return nil
+		}
 	}
-	reg("(*sync.Mutex).TryLock", func(e *Engine, caller *frame, fn *ssa.Function, args []value) value { return e.ctx.tru })
+	reg("(*sync.Mutex).Lock", lk((*Engine).lockW))
+	reg("(*sync.Mutex).Unlock", lk((*Engine).unlockW))
+	reg("(*sync.RWMutex).Lock", lk((*Engine).lockW))
+	reg("(*sync.RWMutex).Unlock", lk((*Engine).unlockW))
+	reg("(*sync.RWMutex).RLock", lk((*Engine).lockR))
+	reg("(*sync.RWMutex).RUnlock", lk((*Engine).unlockR))
+	reg("(*internal/sync.Mutex).Lock", lk((*Engine).lockW))
+	reg("(*internal/sync.Mutex).Unlock", lk((*Engine).unlockW))
+	reg("(*sync.Mutex).TryLock", func(e *Engine, caller *frame, fn *ssa.Function, args []value) value {
+		l := e.lockOf(args[0].(Ptr).p)
+		if l.writer || l.readers > 0 {
+			return e.ctx.fls
+		}
+		e.lockW(args[0].(Ptr).p)
+		return e.ctx.tru
+	})
+	reg("(*sync.WaitGroup).Add", func(e *Engine, caller *frame, fn *ssa.Function, args []value) value {
+		l := e.lockOf(args[0].(Ptr).p)
+		d := int(e.concInt(args[1].(*Term), "WaitGroup.Add"))
+		l.readers += d
+		e.undo = append(e.undo, undoRec{f: func() { l.readers -= d }})
+		return nil
+	})
+	reg("(*sync.WaitGroup).Done", func(e *Engine, caller *frame, fn *ssa.Function, args []value) value {
+		l := e.lockOf(args[0].(Ptr).p)
+		l.readers--
+		e.undo = append(e.undo, undoRec{f: func() { l.readers++ }})
+		return nil
+	})
+	reg("(*sync.WaitGroup).Wait", func(e *Engine, caller *frame, fn *ssa.Function, args []value) value {
+		l := e.lockOf(args[0].(Ptr).p)
+		e.block(func() bool { return l.readers <= 0 }, "WaitGroup.Wait")
+		return nil
+	})
+	reg("(*sync.WaitGroup).Go", func(e *Engine, caller *frame, fn *ssa.Function, args []value) value {
+		l := e.lockOf(args[0].(Ptr).p)
+		l.readers++
+		e.undo = append(e.undo, undoRec{f: func() { l.readers-- }})
+		f := args[1]
+		e.spawn(caller, token.NoPos, &nativeFunc{name: "wg.Go", f: func(e *Engine, c *frame, _ []value) value {
+			defer func() { l.readers-- }()
+			return e.call(c, token.NoPos, f, nil)
+		}}, nil)
+		return nil
+	})
 	reg("(*sync.Once).Do", func(e *Engine, caller *frame, fn *ssa.Function, args []value) value {
 		// Once{done atomic.Uint32 (struct{_ noCopy; v uint32}), m Mutex}
 		p := args[0].(Ptr)
